@@ -107,6 +107,10 @@ public:
                     const Scalar Viv = m_op.inner_product(m_fac_V.col(i - 1), v);
                     // Restart V if (Vi^H)v is much larger than eps
                     restart = (abs(Viv) > eps_sqrt);
+#ifdef YIXUAN_SPECTRA_VERIF
+                    if (restart)
+                        this->verif_notify(verif::EvLocalRestart, i, m_beta, abs(Viv));
+#endif
                 }
             }
 
@@ -159,6 +163,9 @@ public:
                 // next iteration.
                 if (m_beta < beta_thresh)
                 {
+#ifdef YIXUAN_SPECTRA_VERIF
+                    this->verif_notify(verif::EvForcedZero, i, m_beta, ortho_err);
+#endif
                     m_fac_f.setZero();
                     m_beta = RealScalar(0);
                     break;
@@ -177,10 +184,17 @@ public:
                 ortho_err = Vf.head(i1).cwiseAbs().maxCoeff();
                 count++;
             }
+#ifdef YIXUAN_SPECTRA_VERIF
+            if (ortho_err > m_eps * m_beta)
+                this->verif_notify(verif::EvReorthGaveUp, i, m_beta, ortho_err);
+#endif
         }
 
         // Indicate that this is a step-m factorization
         m_k = to_m;
+#ifdef YIXUAN_SPECTRA_VERIF
+        this->verif_notify(verif::EvExtended, from_k, m_beta, RealScalar(0));
+#endif
     }
 
     // Apply H -> Q'HQ, where Q is from a tridiagonal QR decomposition
